@@ -1,11 +1,30 @@
 import DaskModel.Model.Counting
 import DaskModel.Lemmas.CountingLemmas
+import DaskModel.Lemmas.CountingMoreLemmas
+import DaskModel.Lemmas.CoarsenLemmas
+import DaskModel.Lemmas.HistogramLemmas
+import DaskModel.Lemmas.RavelLemmas
 /-!
 # C27 — counting, set, search and histogram routines equal NumPy (theorems)
 
 Each routine is a merge of per-chunk results; every theorem says: for *every* chunking (zero-length
 chunks included) the merge equals the routine applied to the whole array.  Element values are `Nat`
 (only `<`, `≤`, `=` are used); weights, float edges, NaN and density are validated against NumPy.
+
+Clauses of the statement and their theorems:
+  unique (index, inverse, counts)   unique_merge, unique_den, unique_spec_char, unique_chunked_char, unique_inverse_den
+  bincount                          bincount_den, bincount_tree, bincount_tree_den, bincount_weights_den
+  histogram / histogram2d           histogram_den, histogramdd_den, histogram2d_den, histogram2d_rejects
+  digitize                          digitize_den, digitize_increasing, digitize_decreasing
+  searchsorted                      searchsorted_den
+  isin                              isin_den
+  nonzero / argwhere / flatnonzero  nonzero_den, argwhere_den, argwhere_chunked, flatnonzero_den, nonzero_nd_den
+  count_nonzero                     count_nonzero_den
+  ravel_multi_index / unravel_index unravel_ravel_C, ravel_unravel_C, ravel_multi_index_unravel, unravel_index_ravel,
+                                    ravel_multi_index_modes, unravel_blocks
+  coarsen                           coarsen_den, aligned_coarsen_chunks_spec, aligned_coarsen_chunks_fixpoint,
+                                    coarsen_any_chunking, coarsen_rejects, coarsen_declared_chunks
+  compress (extract)                compress_den, compress_rejects, extract_den
 -/
 namespace Dask.C27
 open Dask.Chunks Dask.Counting
@@ -162,5 +181,520 @@ theorem bincount_weights_den (bs : List (List Nat × List Int)) (m : Nat) (hne :
   exact bincountW_getD b.1 b.2 m i
 
 example : bincountAggW [bincountW [1, 1] [2, 3] 0, bincountW [0, 3] [-1, 4] 0] = [-1, 5, 0, 4] := by decide
+
+/-! ### coarsen on ANY chunking: `aligned_coarsen_chunks` + block-by-block `chunk.coarsen` -/
+
+/-- **aligned_coarsen_chunks_spec**: for every chunk tuple (zero-length chunks allowed) and every positive factor
+    `aligned_coarsen_chunks` returns (never raises) multiples of the factor followed by the remainder
+    `total % factor` when that is non-zero, with the same total; every chunk is positive, except that an axis of
+    length zero keeps the single chunk `(0,)`. -/
+theorem aligned_coarsen_chunks_spec (cs : List Nat) (m : Nat) (hm : 0 < m) :
+    ∃ body, alignedCoarsenChunks cs m = some (body ++ (if sum cs % m = 0 then [] else [sum cs % m]))
+      ∧ (∀ c ∈ body, m ∣ c) ∧ sum body + sum cs % m = sum cs
+      ∧ ((sum cs ≠ 0 ∧ ∀ c ∈ body, 0 < c) ∨ (sum cs = 0 ∧ body = [0])) :=
+  aligned_spec cs m hm
+
+example : alignedCoarsenChunks [1, 2, 3] 4 = some [4, 2] := by decide
+example : alignedCoarsenChunks [1, 20, 3, 4] 4 = some [4, 20, 4] := by decide
+example : alignedCoarsenChunks [20, 10, 15, 23, 24] 10 = some [20, 10, 20, 20, 20, 2] := by decide
+/-- the largest chunk is a multiple of the factor, two others are not: they are still re-aligned -/
+example : alignedCoarsenChunks [4, 1, 3] 4 = some [4, 4] := by decide
+example : alignedCoarsenChunks [0, 0] 3 = some [0] := by decide
+
+/-- **aligned_coarsen_chunks_fixpoint**: chunks that are positive multiples of the factor are left alone
+    (`da.coarsen` then does not rechunk). -/
+theorem aligned_coarsen_chunks_fixpoint (cs : List Nat) (m : Nat) (hm : 0 < m) (hne : cs ≠ [])
+    (h : ∀ c ∈ cs, 0 < c ∧ m ∣ c) : alignedCoarsenChunks cs m = some cs := aligned_fixpoint cs m hm hne h
+
+example : ([4, 8, 4] : List Nat) ≠ [] ∧ ∀ c ∈ [4, 8, 4], 0 < c ∧ 4 ∣ c := by decide
+
+/-- **coarsen_any_chunking**: `da.coarsen` along an axis — guard, `aligned_coarsen_chunks`, rechunk, `chunk.coarsen`
+    block by block — returns, for EVERY chunking `cs` of the axis (irregular, misaligned, zero-length chunks), blocks whose
+    concatenation is `chunk.coarsen` of the whole axis, whenever NumPy's `chunk.coarsen` itself is defined
+    (`trim_excess` or the length is a multiple of the factor). -/
+theorem coarsen_any_chunking {α β} (f : List α → β) (trim : Bool) (d : Nat) (hd : 0 < d) (cs : List Nat) (xs : List α)
+    (hlen : xs.length = sum cs) (hok : trim = true ∨ sum cs % d = 0) :
+    ∃ blocks, daCoarsen f trim d cs xs = some blocks ∧ blocks.flatten = coarsenBlock f d xs := by
+  obtain ⟨body, h1, h2, h3, _⟩ := aligned_spec cs d hd
+  have hsum : sum (body ++ (if sum cs % d = 0 then [] else [sum cs % d])) = sum cs := by
+    rw [sum_append]; split <;> simp_all [sum]
+  have hx : xs.length = sum (body ++ (if sum cs % d = 0 then [] else [sum cs % d])) := by rw [hsum, hlen]
+  have hL := splitBy_lengths _ xs hx
+  have hF := splitBy_flatten' _ xs hx
+  refine ⟨(splitBy (body ++ (if sum cs % d = 0 then [] else [sum cs % d])) xs).map (coarsenBlock f d), ?_, ?_⟩
+  · unfold daCoarsen
+    rw [if_neg (by omega)]
+    have hg : (!trim && sum cs % d != 0) = false := by
+      rcases hok with h | h <;> simp [h]
+    simp only [hg, h1]
+    apply optAll_chunkCoarsen
+    intro b hb
+    rcases hok with h | h
+    · exact Or.inl h
+    · right
+      have hm : b.length ∈ (splitBy (body ++ (if sum cs % d = 0 then [] else [sum cs % d])) xs).map List.length :=
+        List.mem_map_of_mem hb
+      rw [hL, if_pos h, List.append_nil] at hm
+      exact h2 _ hm
+  · have hA : AlignedLens d ((splitBy (body ++ (if sum cs % d = 0 then [] else [sum cs % d])) xs).map List.length) := by
+      rw [hL]
+      exact alignedLens_append d body _ h2 (by split <;> simp)
+    have := coarsen_den_ragged f d hd _ hA
+    unfold coarsenChunked at this
+    rw [this, hF]
+
+example : daCoarsen Chunks.sum true 4 [4, 1, 3, 2] [1, 2, 3, 4, 5, 6, 7, 8, 9, 10] = some [[10], [26], []] := by decide
+example : daCoarsen Chunks.sum false 2 [3, 1, 2] [1, 2, 3, 4, 5, 6] = some [[3], [7], [11]] := by decide
+example : daCoarsen Chunks.sum true 4 [1, 2] [1, 2, 3] = some [[]] := by decide
+
+/-- **coarsen_rejects**: without `trim_excess` a length that is not a multiple of the factor is a ValueError —
+    exactly when `chunk.coarsen` on the whole array raises. -/
+theorem coarsen_rejects {α β} (f : List α → β) (d : Nat) (cs : List Nat) (xs : List α) (hr : sum cs % d ≠ 0) :
+    daCoarsen f false d cs xs = none := by
+  unfold daCoarsen
+  split
+  · rfl
+  · simp [hr]
+
+example : daCoarsen Chunks.sum false 4 [4, 1, 3, 2] [1, 2, 3, 4, 5, 6, 7, 8, 9, 10] = none := by decide
+
+/-- **coarsen_declared_chunks**: the lazily declared chunks of the result are the lengths of the computed blocks in
+    block order — the only block the declaration may leave out is a trailing zero-length one (the trimmed remainder),
+    so block `i` of the declaration is block `i` of the graph; they are positive (or the single `(0,)` of an axis that
+    loses everything) and add up to NumPy's result length `n // d`. -/
+theorem coarsen_declared_chunks (d : Nat) (hd : 0 < d) (cs : List Nat) :
+    ∃ aligned z, alignedCoarsenChunks cs d = some aligned ∧ (z = [] ∨ z = [0])
+      ∧ aligned.map (· / d) = coarsenDeclaredChunks d aligned ++ z
+      ∧ (coarsenDeclaredChunks d aligned = [0] ∨ ∀ c ∈ coarsenDeclaredChunks d aligned, 0 < c)
+      ∧ sum (coarsenDeclaredChunks d aligned) = sum cs / d := by
+  obtain ⟨body, h1, h2, h3, h4⟩ := aligned_spec cs d hd
+  have hrd : (sum cs % d) / d = 0 := Nat.div_eq_of_lt (Nat.mod_lt _ hd)
+  have hsumdiv : sum (body.map (· / d)) = sum cs / d := by
+    have e := sum_map_div d hd body h2
+    symm
+    apply Nat.div_eq_of_lt_le
+    · rw [e]; omega
+    · rw [Nat.add_mul, e, Nat.one_mul]; have := Nat.mod_lt (sum cs) hd; omega
+  rcases h4 with ⟨hne, hpos⟩ | ⟨h0, hb⟩
+  · have hposd : ∀ c ∈ body, 0 < c / d := fun c hc => by
+      obtain ⟨k, hk⟩ := h2 c hc
+      have := hpos c hc
+      rw [hk, Nat.mul_div_cancel_left _ hd]
+      cases k with
+      | zero => omega
+      | succ k => omega
+    have hfil : (body.map (· / d)).filter (fun c => decide (0 < c)) = body.map (· / d) := by
+      rw [List.filter_eq_self]
+      intro c hc
+      obtain ⟨b, hb, rfl⟩ := List.mem_map.1 hc
+      simpa using hposd b hb
+    have htail : ((if sum cs % d = 0 then [] else [sum cs % d]).map (· / d)).filter (fun c => decide (0 < c)) = [] := by
+      split
+      · rfl
+      · simp [hrd]
+    have hdecl : coarsenDeclaredChunks d (body ++ (if sum cs % d = 0 then [] else [sum cs % d]))
+        = if body = [] then [0] else body.map (· / d) := by
+      unfold coarsenDeclaredChunks
+      rw [List.map_append, List.filter_append, hfil, htail, List.append_nil]
+      cases body with
+      | nil => rfl
+      | cons b bs => simp
+    cases hbody : body with
+    | nil =>
+      subst hbody
+      -- everything is trimmed: one block `[r]`, declared `(0,)`
+      have hr : sum cs % d ≠ 0 := by
+        intro h
+        have e0 : sum ([] : List Nat) = 0 := rfl
+        rw [e0] at h3; omega
+      refine ⟨_, [], h1, Or.inl rfl, ?_, Or.inl (by rw [hdecl]; rfl), ?_⟩
+      · rw [hdecl]; simp [hr, hrd]
+      · rw [hdecl, ← hsumdiv]; rfl
+    | cons b bs =>
+      rw [hbody] at hdecl hsumdiv hposd h1
+      refine ⟨_, (if sum cs % d = 0 then [] else [sum cs % d]).map (· / d), h1, ?_, ?_, Or.inr ?_, ?_⟩
+      · split
+        · left; rfl
+        · right; simp [hrd]
+      · rw [hdecl, List.map_append]; simp
+      · rw [hdecl]
+        intro c hc
+        simp only [reduceCtorEq, if_false] at hc
+        obtain ⟨x, hx, rfl⟩ := List.mem_map.1 hc
+        exact hposd x hx
+      · rw [hdecl]; simpa using hsumdiv
+  · subst hb
+    have hr : sum cs % d = 0 := by rw [h0]; exact Nat.zero_mod d
+    rw [if_pos hr, List.append_nil] at h1
+    refine ⟨[0], [], h1, Or.inl rfl, ?_, Or.inl ?_, ?_⟩
+    · simp [coarsenDeclaredChunks]
+    · simp [coarsenDeclaredChunks]
+    · rw [h0]; simp [coarsenDeclaredChunks, sum]
+
+example : coarsenDeclaredChunks 4 [4, 4, 2] = [1, 1] := by decide
+example : coarsenDeclaredChunks 4 [3] = [0] := by decide
+
+/-! ### the remaining clauses of the statement -/
+
+/-- **unique_spec_char**: the specification side of `unique_den` spelled out — NumPy's sorted distinct values, each
+    with its FIRST position in the array and its multiplicity (so `unique_den` is not a statement about
+    `_unique_internal` alone). -/
+theorem unique_spec_char (xs : List Nat) :
+    uniqueSpec xs = (uniq xs).map (fun v => ⟨v, xs.idxOf v, xs.count v⟩) := uniqueSpec_eq xs
+
+/-- **unique_chunked_char**: `da.unique(return_index, return_counts)` for every chunking, in NumPy's terms -/
+theorem unique_chunked_char (bs : List (List Nat)) :
+    uniqueChunked bs = (uniq bs.flatten).map (fun v => ⟨v, bs.flatten.idxOf v, bs.flatten.count v⟩) := by
+  obtain ⟨rs, h1, h2⟩ := chunkRows_eq bs 0
+  unfold uniqueChunked
+  rw [h1]
+  rw [unique_merge, h2]
+  exact uniqueSpec_eq bs.flatten
+
+/-- **bincount_tree**: `_tree_reduce(aggregate=_bincount_agg, split_every=k)` — aggregating groups of partial counts
+    and then the group results (any grouping, any depth by iteration) is aggregating all of them at once. -/
+theorem bincount_tree (gs : List (List (List Nat))) : bincountAgg (gs.map bincountAgg) = bincountAgg gs.flatten :=
+  bincountAgg_tree gs
+
+/-- **bincount_tree_den**: two-level reduction of the per-chunk bincounts = `np.bincount` of the whole array -/
+theorem bincount_tree_den (gs : List (List (List Nat))) (m : Nat) (hne : gs.flatten ≠ []) :
+    bincountAgg (gs.map (fun g => bincountAgg (g.map (fun b => bincount b m)))) = bincount gs.flatten.flatten m := by
+  have e : gs.map (fun g => bincountAgg (g.map (fun b => bincount b m)))
+      = (gs.map (fun g => g.map (fun b => bincount b m))).map bincountAgg := by
+    rw [List.map_map]; rfl
+  rw [e, bincountAgg_tree, ← List.map_flatten]
+  -- now the one-level statement
+  have hlen : maxList ((gs.flatten.map (fun b => bincount b m)).map List.length) = max m (binLen gs.flatten.flatten) := by
+    rw [List.map_map]
+    have : (List.length ∘ fun b => bincount b m) = fun b => max m (binLen b) := by
+      funext b; simp [bincount_length]
+    rw [this]; exact maxList_binLens m gs.flatten hne
+  unfold bincountAgg
+  rw [hlen, bincount_eq]
+  apply List.map_congr_left
+  intro i _
+  rw [List.map_map, ← sum_map_count_flatten]
+  congr 1
+  apply List.map_congr_left
+  intro b _
+  exact bincount_getD b m i
+
+example : ([[[1, 1], [3]], [[0, 5]]] : List (List (List Nat))).flatten ≠ [] := by decide
+example : bincountAgg ([[[1, 1], [3]], [[0, 5]]].map (fun g => bincountAgg (g.map (fun b => bincount b 0))))
+    = [1, 2, 0, 1, 0, 1] := by decide
+
+/-! ### histogramdd / histogram2d -/
+
+/-- **histogramdd_den**: with fixed edges in every dimension the sum over the row-chunks of the per-chunk
+    `np.histogramdd` is `np.histogramdd` of the whole sample. -/
+theorem histogramdd_den (edges : List (List Nat)) (blocks : List (List (List Nat))) :
+    histddMerge edges blocks = histddBlock edges blocks.flatten := by
+  unfold histddMerge histddBlock
+  exact sumVecs_counts (inCell edges) (cells (nbinsOf edges)) blocks
+
+example : histddMerge [[0, 2, 4], [0, 3, 6]] [[[0, 0], [1, 5]], [], [[4, 6], [2, 2], [9, 1]]] = [1, 1, 1, 1] := by decide
+
+/-- **histogram2d_den**: `da.histogram2d(x, y, bins=[ex, ey])` for coordinate arrays with the SAME chunking (any
+    chunking): per-chunk pairing, per-chunk 2-d histogram, sum over the chunks = the 2-d histogram of the pairs
+    `(x_k, y_k)` of the whole arrays. -/
+theorem histogram2d_den (ex ey : List Nat) (xb yb : List (List Nat)) (h : xb.map List.length = yb.map List.length) :
+    histogram2d ex ey xb yb = some (histddBlock [ex, ey] (zipRows xb.flatten yb.flatten)) := by
+  unfold histogram2d
+  rw [if_pos h, histogramdd_den, zipWith_zipRows_flatten xb yb h]
+
+example : ([[1, 2], [], [3]] : List (List Nat)).map List.length = ([[7, 8], [], [9]] : List (List Nat)).map List.length := by decide
+example : histogram2d [0, 2, 4] [0, 8, 9] [[1, 2], [], [3]] [[7, 8], [], [9]] = some [1, 0, 0, 2] := by decide
+
+/-- **histogram2d_rejects**: coordinate arrays chunked differently are a ValueError (documented restriction) -/
+theorem histogram2d_rejects (ex ey : List Nat) (xb yb : List (List Nat)) (h : xb.map List.length ≠ yb.map List.length) :
+    histogram2d ex ey xb yb = none := by
+  unfold histogram2d; rw [if_neg h]
+
+example : histogram2d [0, 2] [0, 2] [[1], [1]] [[1, 1]] = none := by decide
+
+/-! ### digitize -/
+
+/-- **digitize_den**: `np.digitize` block by block is `np.digitize` on the whole array (same error behaviour). -/
+theorem digitize_den (right : Bool) (bins : List Nat) (blocks : List (List Nat)) :
+    (daDigitize right bins blocks).map List.flatten = optMapM (digitize1 right bins) blocks.flatten := by
+  unfold daDigitize
+  cases hm : digitize1 right bins 0 with
+  | none =>
+    -- non-monotonic bins: every element raises
+    have hall : ∀ x, digitize1 right bins x = none := by
+      intro x; unfold digitize1 at hm ⊢
+      split at hm
+      · cases hm
+      · split at hm
+        · cases hm
+        · rename_i h1 h2; rw [if_neg h1, if_neg h2]
+    by_cases he : blocks.flatten = []
+    · have hbn : ∀ b ∈ blocks, b = [] := by
+        intro b hb
+        cases b with
+        | nil => rfl
+        | cons a t =>
+          have : a ∈ blocks.flatten := List.mem_flatten.2 ⟨_, hb, by simp⟩
+          rw [he] at this; cases this
+      rw [he]
+      rw [optMapM_some (optMapM (digitize1 right bins)) (fun _ => []) blocks
+        (fun b hb => by rw [hbn b hb]; rfl)]
+      simp [optMapM]
+    · obtain ⟨x, hx⟩ := List.exists_mem_of_ne_nil _ he
+      obtain ⟨b, hb, hxb⟩ := List.mem_flatten.1 hx
+      rw [optMapM_none _ blocks.flatten ⟨x, hx, hall x⟩,
+        optMapM_none _ blocks ⟨b, hb, optMapM_none _ b ⟨x, hxb, hall x⟩⟩]
+      rfl
+  | some _ =>
+    have hall : ∀ x, ∃ y, digitize1 right bins x = some y := by
+      intro x; unfold digitize1 at hm ⊢
+      split
+      · exact ⟨_, rfl⟩
+      · split
+        · exact ⟨_, rfl⟩
+        · rename_i h1 h2; rw [if_neg h1, if_neg h2] at hm; cases hm
+    let g := fun x => (digitize1 right bins x).getD 0
+    have hg : ∀ x, digitize1 right bins x = some (g x) := by
+      intro x; obtain ⟨y, hy⟩ := hall x; simp [g, hy]
+    rw [optMapM_some _ g blocks.flatten (fun x _ => hg x),
+      optMapM_some (optMapM (digitize1 right bins)) (fun b => b.map g) blocks
+        (fun b _ => optMapM_some _ g b (fun x _ => hg x))]
+    simp [List.map_flatten]
+
+/-- **digitize_increasing**: for increasing bins the result `i` brackets `x` as NumPy documents:
+    `bins[i-1] <= x < bins[i]` (`right=False`), `bins[i-1] < x <= bins[i]` (`right=True`). -/
+theorem digitize_increasing (right : Bool) (bins : List Nat) (x : Nat) (h : isInc bins = true) :
+    ∃ i, digitize1 right bins x = some i ∧ i ≤ bins.length
+      ∧ (∀ b ∈ bins.take i, if right then b < x else b ≤ x)
+      ∧ (∀ b ∈ bins.drop i, if right then x ≤ b else x < b) := by
+  have hs := sorted_count_split (sidePred (!right) x) (sidePred_downClosed (!right) x) bins (isInc_pairwise bins h)
+  refine ⟨bins.countP (sidePred (!right) x), by simp [digitize1, h], List.countP_le_length, ?_, ?_⟩
+  · intro b hb
+    have := hs.1 b hb
+    unfold sidePred at this
+    cases right <;> simp_all
+  · intro b hb
+    have := hs.2 b hb
+    unfold sidePred at this
+    cases right <;> simp_all <;> omega
+
+example : isInc [1, 2, 2, 4] = true := by decide
+example : digitize1 false [1, 2, 2, 4] 2 = some 3 := by decide
+example : digitize1 true [1, 2, 2, 4] 2 = some 1 := by decide
+
+/-- **digitize_decreasing**: for decreasing (not increasing) bins: `bins[i-1] > x >= bins[i]` (`right=False`),
+    `bins[i-1] >= x > bins[i]` (`right=True`). -/
+theorem digitize_decreasing (right : Bool) (bins : List Nat) (x : Nat) (h0 : isInc bins = false) (h : isDec bins = true) :
+    ∃ i, digitize1 right bins x = some i ∧ i ≤ bins.length
+      ∧ (∀ b ∈ bins.take i, if right then x ≤ b else x < b)
+      ∧ (∀ b ∈ bins.drop i, if right then b < x else b ≤ x) := by
+  have hrev := pairwise_reverse_ge (isDec_pairwise bins h)
+  have hs := sorted_count_split (sidePred (!right) x) (sidePred_downClosed (!right) x) bins.reverse hrev
+  have hc : bins.reverse.countP (sidePred (!right) x) ≤ bins.length := by
+    have := List.countP_le_length (p := sidePred (!right) x) (l := bins.reverse); simpa using this
+  refine ⟨bins.length - bins.reverse.countP (sidePred (!right) x), by simp [digitize1, h0, h], by omega, ?_, ?_⟩
+  · intro b hb
+    -- the first `n - c` bins are the last `n - c` of the reversed list: they fail the predicate
+    have hb' : b ∈ bins.reverse.drop (bins.reverse.countP (sidePred (!right) x)) := by
+      rw [List.drop_reverse, List.mem_reverse]
+      exact hb
+    have := hs.2 b hb'
+    unfold sidePred at this
+    cases right <;> simp_all <;> omega
+  · intro b hb
+    have hb' : b ∈ bins.reverse.take (bins.reverse.countP (sidePred (!right) x)) := by
+      rw [List.take_reverse, List.mem_reverse]
+      have e : bins.length - bins.reverse.countP (sidePred (!right) x) = bins.length - bins.reverse.countP (sidePred (!right) x) := rfl
+      simpa using hb
+    have := hs.1 b hb'
+    unfold sidePred at this
+    cases right <;> simp_all
+
+example : isInc [4, 2, 2, 1] = false ∧ isDec [4, 2, 2, 1] = true := by decide
+example : digitize1 false [4, 2, 2, 1] 2 = some 1 := by decide
+example : digitize1 true [4, 2, 2, 1] 2 = some 3 := by decide
+example : digitize1 false [1, 3, 2] 2 = none := by decide
+
+/-! ### compress / extract -/
+
+/-- **compress_den**: `da.compress` with a (dask) condition no longer than the axis — axis cut to `len(cond)`, both
+    brought to common chunks `cs` (ANY chunking adding up to `len(cond)`), boolean selection block by block — is
+    `np.compress`: the elements whose condition is true, the missing tail of the condition counting as `False`. -/
+theorem compress_den {α} (cs : List Nat) (cond : List Bool) (xs : List α) (hc : cond.length = sum cs)
+    (hx : cond.length ≤ xs.length) :
+    (compressChunked cs cond xs).map List.flatten = some (selectBy cond xs) ∧ compress cond xs = some (selectBy cond xs) := by
+  unfold compressChunked compress
+  have hn : ¬ xs.length < cond.length := by omega
+  simp only [hn, if_false]
+  refine ⟨?_, by rw [selectBy_take]⟩
+  simp only [Option.map_some]
+  rw [zipWith_selectBy_flatten cs cond (xs.take cond.length) hc (by rw [List.length_take]; omega), selectBy_take]
+
+example : compressChunked [1, 0, 2] [true, false, true] [10, 20, 30, 40] = some [[10], [], [30]] := by decide
+
+/-- **compress_rejects**: a condition longer than the axis raises -/
+theorem compress_rejects {α} (cs : List Nat) (cond : List Bool) (xs : List α) (h : xs.length < cond.length) :
+    compressChunked cs cond xs = none ∧ compress cond xs = none := by
+  unfold compressChunked compress; simp [h]
+
+/-- **extract_den**: `da.extract(cond, arr)` = `compress` of the flattenings = selection by the flattened condition -/
+theorem extract_den {α} (condFlat : List Bool) (arrFlat : List α) (h : condFlat.length = arrFlat.length) :
+    extract condFlat arrFlat = some (selectBy condFlat arrFlat) := by
+  unfold extract compress
+  rw [if_neg (by omega), selectBy_take]
+
+example : extract [false, true, true] [5, 6, 7] = some [6, 7] := by decide
+
+/-! ### ravel_multi_index / unravel_index -/
+
+/-- **unravel_ravel_C**: C order, in-bounds multi-index: unravelling its flat index gives it back; the flat index is
+    below the number of elements. -/
+theorem unravel_ravel_C (dims c : List Nat) (h : InBounds dims c) :
+    ravelC dims c < prod dims ∧ unravelC dims (ravelC dims c) = c := ⟨ravelC_lt dims c h, unravelC_ravelC dims c h⟩
+
+/-- **ravel_unravel_C**: a flat index below the number of elements unravels to an in-bounds multi-index that ravels back -/
+theorem ravel_unravel_C (shape : List Nat) (i : Nat) (h : i < prod shape) :
+    InBounds shape (unravelC shape i) ∧ ravelC shape (unravelC shape i) = i :=
+  ⟨unravelC_inBounds shape i h, ravelC_unravelC shape i h⟩
+
+example : InBounds [2, 3, 4] [1, 2, 3] := by simp [InBounds]
+example : ravelC [2, 3, 4] [1, 2, 3] = 23 ∧ unravelC [2, 3, 4] 23 = [1, 2, 3] := by decide
+
+/-- **ravel_multi_index_unravel**: the public functions, both orders, mode `raise`: `np.ravel_multi_index` accepts exactly
+    what `np.unravel_index` can return, and `unravel_index(ravel_multi_index(idx)) == idx`. -/
+theorem ravel_multi_index_unravel (order : Order) (dims : List Nat) (idx : List Int) (r : Nat)
+    (h : ravelMulti order .raise dims idx = some r) :
+    ∃ c, unravel order dims r = some c ∧ idx = c.map Int.ofNat := by
+  unfold ravelMulti at h
+  cases hf : fixCoords .raise dims idx with
+  | none => simp [hf] at h
+  | some c =>
+    have hb := fixCoords_inBounds .raise dims idx c hf
+    have he := fixCoords_raise_eq dims idx c hf
+    simp only [hf] at h
+    refine ⟨c, ?_, he⟩
+    cases order with
+    | C =>
+      simp only [Option.some.injEq] at h
+      subst h
+      unfold unravel
+      rw [if_neg (by have := ravelC_lt dims c hb; omega)]
+      simp only [unravelC_ravelC dims c hb]
+    | F =>
+      simp only [Option.some.injEq] at h
+      subst h
+      have hb' : InBounds dims.reverse c.reverse :=
+        fixCoords_inBounds .raise _ _ _ (fixCoords_reverse .raise dims idx c hf)
+      unfold unravel
+      rw [if_neg (by have := ravelC_lt _ _ hb'; rw [prod_reverse] at this; omega)]
+      simp only [unravelC_ravelC _ _ hb', List.reverse_reverse]
+
+/-- **unravel_index_ravel**: both orders: `ravel_multi_index(unravel_index(i)) == i` for every valid flat index, and
+    `unravel_index` raises exactly on the others. -/
+theorem unravel_index_ravel (order : Order) (shape : List Nat) (i : Nat) :
+    (prod shape ≤ i → unravel order shape i = none) ∧
+    (i < prod shape → ∃ c, unravel order shape i = some c ∧ ravelMulti order .raise shape (c.map Int.ofNat) = some i) := by
+  refine ⟨fun h => by simp [unravel, h], fun h => ?_⟩
+  unfold unravel
+  rw [if_neg (by omega)]
+  cases order with
+  | C =>
+    refine ⟨_, rfl, ?_⟩
+    unfold ravelMulti
+    rw [fixCoords_raise_ofNat shape _ (unravelC_inBounds shape i h)]
+    simp only [ravelC_unravelC shape i h]
+  | F =>
+    refine ⟨_, rfl, ?_⟩
+    have h' : i < prod shape.reverse := by rw [prod_reverse]; exact h
+    have hb := unravelC_inBounds shape.reverse i h'
+    have hf := fixCoords_reverse .raise shape.reverse ((unravelC shape.reverse i).map Int.ofNat) _
+      (fixCoords_raise_ofNat shape.reverse _ hb)
+    rw [List.reverse_reverse, ← List.map_reverse] at hf
+    unfold ravelMulti
+    rw [hf]
+    simp only [List.reverse_reverse, ravelC_unravelC shape.reverse i h']
+
+example : unravel .F [2, 3, 4] 23 = some [1, 2, 3] ∧ ravelMulti .F .raise [2, 3, 4] [1, 2, 3] = some 23 := by decide
+example : unravel .C [2, 3, 4] 24 = none ∧ ravelMulti .C .raise [2, 3, 4] [2, 0, 0] = none := by decide
+
+/-- **ravel_multi_index_modes**: under every mode (`raise`, `wrap`, `clip`) an accepted multi-index is ravelled from
+    in-bounds coordinates, so the result is a valid flat index. -/
+theorem ravel_multi_index_modes (order : Order) (mode : Mode) (dims : List Nat) (idx : List Int) (r : Nat)
+    (h : ravelMulti order mode dims idx = some r) : r < prod dims := by
+  unfold ravelMulti at h
+  cases hf : fixCoords mode dims idx with
+  | none => simp [hf] at h
+  | some c =>
+    simp only [hf] at h
+    cases order with
+    | C =>
+      simp only [Option.some.injEq] at h; subst h
+      exact ravelC_lt dims c (fixCoords_inBounds mode dims idx c hf)
+    | F =>
+      simp only [Option.some.injEq] at h; subst h
+      have := ravelC_lt _ _ (fixCoords_inBounds mode _ _ _ (fixCoords_reverse mode dims idx c hf))
+      rwa [prod_reverse] at this
+
+example : ravelMulti .C .wrap [3, 2] [-1, 3] = some 5 ∧ ravelMulti .C .clip [3, 2] [5, -4] = some 4 := by decide
+
+/-- **ravel_unravel_blocks**: `map_blocks` evaluation = evaluation on the whole index array (both functions) -/
+theorem unravel_blocks (order : Order) (shape : List Nat) (blocks : List (List Nat)) (r : List (List (List Nat)))
+    (h : daUnravel order shape blocks = some r) : optMapM (unravel order shape) blocks.flatten = some r.flatten := by
+  unfold daUnravel at h
+  -- every element is accepted
+  have hall : ∀ b ∈ blocks, ∀ x ∈ b, (unravel order shape x).isSome := by
+    intro b hb x hx
+    cases hu : unravel order shape x with
+    | some _ => rfl
+    | none =>
+      rw [optMapM_none _ blocks ⟨b, hb, optMapM_none _ b ⟨x, hx, hu⟩⟩] at h; cases h
+  let g := fun x => (unravel order shape x).getD []
+  have hg : ∀ b ∈ blocks, ∀ x ∈ b, unravel order shape x = some (g x) := by
+    intro b hb x hx
+    have := hall b hb x hx
+    cases hu : unravel order shape x with
+    | some y => simp [g, hu]
+    | none => simp [hu] at this
+  rw [optMapM_some (optMapM (unravel order shape)) (fun b => b.map g) blocks
+    (fun b hb => optMapM_some _ g b (hg b hb))] at h
+  cases h
+  rw [optMapM_some _ g blocks.flatten (fun x hx => by
+    obtain ⟨b, hb, hxb⟩ := List.mem_flatten.1 hx; exact hg b hb x hxb)]
+  simp [List.map_flatten]
+
+/-! ### argwhere / flatnonzero / nonzero -/
+
+/-- **argwhere_den**: `da.argwhere(a)` (the stacked raveled `indices`, compressed by the raveled non-zero mask) is the
+    list of the unravelled flat positions of the non-zero elements, in C order — NumPy's `argwhere`. -/
+theorem argwhere_den (shape : List Nat) (xs : List Nat) (h : xs.length = prod shape) :
+    argwhere shape xs = (nonzeroSpec xs).map (unravelC shape) := by
+  unfold argwhere allIndices nonzeroSpec
+  rw [selectBy_map_right, ← h, List.range_eq_range', selectBy_range' (· != 0) xs 0]
+  simp
+
+example : argwhere [2, 2] [0, 7, 3, 0] = [[0, 1], [1, 0]] := by decide
+
+/-- **argwhere_chunked**: the block-by-block evaluation (mask and index rows on common chunks `cs`) is `argwhere` -/
+theorem argwhere_chunked (cs : List Nat) (shape : List Nat) (xs : List Nat) (h : xs.length = prod shape)
+    (hc : xs.length = sum cs) :
+    (List.zipWith selectBy (splitBy cs (xs.map (· != 0))) (splitBy cs (allIndices shape))).flatten = argwhere shape xs := by
+  unfold argwhere
+  exact zipWith_selectBy_flatten cs _ _ (by simpa using hc) (by simp [allIndices]; omega)
+
+/-- **flatnonzero_den**: `flatnonzero(a) = argwhere(a.ravel())[:, 0]` is the list of flat positions of the non-zeros -/
+theorem flatnonzero_den (xs : List Nat) : flatnonzero xs = nonzeroSpec xs := by
+  unfold flatnonzero
+  rw [argwhere_den [xs.length] xs (by simp [prod]), List.map_map]
+  have : ((fun r : List Nat => r.getD 0 0) ∘ unravelC [xs.length]) = id := by
+    funext i; simp [unravelC, prod]
+  rw [this, List.map_id]
+
+/-- **nonzero_nd_den**: `nonzero(a)[k]` is coordinate `k` of the unravelled flat positions of the non-zeros -/
+theorem nonzero_nd_den (shape : List Nat) (xs : List Nat) (k : Nat) (h : xs.length = prod shape) :
+    nonzeroCol shape xs k = (nonzeroSpec xs).map (fun i => (unravelC shape i).getD k 0) := by
+  unfold nonzeroCol
+  rw [argwhere_den shape xs h, List.map_map]; rfl
+
+example : nonzeroCol [2, 2] [0, 7, 3, 0] 0 = [0, 1] ∧ nonzeroCol [2, 2] [0, 7, 3, 0] 1 = [1, 0] := by decide
 
 end Dask.C27
